@@ -11,7 +11,7 @@ CHECKS = {
                      "pairs/triples with injected ties, epsilon lists and inside real algorithm runs is compared with an independent "
                      "constrained-Pareto order; irreflexivity/antisymmetry/transitivity are checked on the recorded verdicts. "
                      "Exploration is the right level: the input space is unbounded, the oracle is exact.",
-                note="Trusted: the 30-line oracle in vlib/oracles.py; markers of equal magnitude and opposite sign are not generated.",
+                note="Trusted: the 30-line oracle in vlib/oracles.py; violation degrees compare by magnitude (-v and +v are equally infeasible).",
                 ref="DESIGN.md §3 C01"),
     "C02": dict(cat="exploration", tech="runtime monitor: post-condition on Selector.fast_nondominated_sorting vs recursive rank oracle",
                 text="After every observed call of the sorter (generated populations in shuffled orders, every tiny population over a "
@@ -163,7 +163,7 @@ def main():
                                        "independent oracles judge every observed execution"}],
         "checks": checks,
         "not_applicable": na,
-        "notes": "Runtime monitoring only. Exit 0 held / 1 VIOLATION / 2 INCONCLUSIVE. Known findings: known_findings.json. Every workload family re-uses its objects across steps (state carried across calls is part of what is observed). Self-validation: selftest/ (188 mutants), seeded/ (120 independent seeded changes in five rounds), benign/ (80 behaviour-preserving patches, all silent), tools/recheck_seeds.sh, tools/recheck_benign.sh.",
+        "notes": "Runtime monitoring only. Exit 0 held / 1 VIOLATION / 2 INCONCLUSIVE. Known findings: known_findings.json. Every workload family re-uses its objects across steps (state carried across calls is part of what is observed). The per-check texts give the core of each monitor; the workload dimensions added while hardening (value types and widths, sizes, provenance, re-use, siblings, entry points, names, ...) are listed in DESIGN.md 8-8.4 and in each evidence file's "rule". Self-validation: selftest/ (188 mutants), seeded/ (120 independent seeded changes in five rounds), benign/ (80 behaviour-preserving patches, all silent), tools/recheck_seeds.sh, tools/recheck_benign.sh.",
     }
     with open(os.path.join(HERE, "MANIFEST.json"), "w") as f:
         json.dump(man, f, indent=1)
